@@ -535,6 +535,29 @@ def run_fixed(desc):
                 out.violation({'kind': 'fixed', 'mode': mode, 'patterns': pats, 'flags': fnames, 'name': name, 'want': want, 'impl': got,
                                'entry': entry}, bucket=('fixed', tuple(pats), name))
         out.nontrivial(('fixed', tuple(pats), tuple(fnames), name))
+    # SPLIT next to brackets: a `|` splits unless it stands inside a bracket expression that really is one - in path mode a bracket
+    # that contains a separator (bare or escaped) is not a bracket expression, so the `|` after it splits
+    raw_split = [('gl', '[a\\/|b]', ['[a\\/', 'b]']), ('gl', 'x|[!\\/|b]', ['x', '[!\\/', 'b]']), ('gl', '[a/|b]', ['[a/', 'b]']), ('fn', '[a\\/|b]', ['[a\\/|b]']),
+                 ('gl', '[a|b]', ['[a|b]']), ('fn', '[a|b]', ['[a|b]']), ('gl', 'c|[a|b]|d', ['c', '[a|b]', 'd']), ('gl', '[a\\]|b]', ['[a\\]|b]']),
+                 ('gl', '[[:alpha:]|]|b', ['[[:alpha:]|]', 'b']), ('gl', 'a\\/[|]|b', ['a\\/[|]', 'b']), ('gl', '[a\\/|b]|[c|d]', ['[a\\/', 'b]', '[c|d]']),
+                 ('fn', '[]|]|b', ['[]|]', 'b']), ('gl', '[!]|]|b', ['[!]|]', 'b']), ('fn', '[a[:digit:]|x]|b', ['[a[:digit:]|x]', 'b']), ('fn', '[^|]|b', ['[^|]', 'b']),
+                 ('fn', '[[:alpha:]|b', ['[[:alpha:]', 'b']), ('fn', 'a|[[:alpha:][:digit:]|]', ['a', '[[:alpha:][:digit:]|]'])]
+    rs_names = ['[a/', 'b]', '[a/|b]', 'x', '[!/', 'a', 'b', '|', 'c', 'd', 'a/|', 'a/b', '[a|b]', ']', 'a]', '|]', 'a/[', 'a/|', '[a', '1', '[]', '[', '5|]', '[1']
+    for mode, joined, pieces in raw_split:
+        mod = F if mode == 'fn' else G
+        match, _ = match_fn(mode)
+        for extra in (0, mod.EXTMATCH, mod.DOTMATCH, mod.NEGATE):
+            for entry in (0, 1, 2):
+                out.evaluations += 1
+                want = {n_ for n_ in rs_names if any(match(n_, p_, extra) for p_ in pieces)}
+                got = call_entry(mode, entry, rs_names, joined, extra | mod.SPLIT)
+                if got != want:
+                    d = sorted(got ^ want)[0]
+                    out.violation({'kind': 'rawsplit', 'mode': mode, 'joined': joined, 'pieces': pieces, 'flags': extra, 'name': d, 'impl': d in got,
+                                   'want': d in want, 'entry': entry, 'problem': 'SPLIT text differs from the list of its pieces'},
+                                  bucket=('rawsplit', joined))
+                    break
+        out.nontrivial(('rawsplit', mode, joined))
     out.sample({'kind': 'fixed', 'patterns': FIXED[0][1], 'flags': FIXED[0][2], 'name': FIXED[0][3], 'expected': FIXED[0][4]})
     return out
 
@@ -549,6 +572,10 @@ def replay(case):
         r = run_real({})
         mine = [v[2] for v in r.violations if v[2].get('include') == case['include'] and v[2].get('exclude') == case['exclude']]
         return (not mine), [dict(name=v_['name'], form=v_['form']) for v_ in mine][:3]
+    if kind == 'rawsplit':
+        want = any(match(case['name'], p_, case['flags']) for p_ in case['pieces'])
+        got = case['name'] in call_entry(mode, case.get('entry', 0), [case['name']], case['joined'], case['flags'] | mod.SPLIT)
+        return got == want, {'impl': got, 'want': want}
     if kind == 'fixed':
         table = util.FN_FLAGS if mode == 'fn' else util.GL_FLAGS
         got = case['name'] in call_entry(mode, case.get('entry', 0), [case['name']], case['patterns'], util.flags_of(case['flags'], table))
